@@ -20,6 +20,17 @@ Proof. exact src_rrect_translate_mut_is_translate. Qed.
 Theorem C07_src_Polyline_translate_mut_is_translate : forall p d, src_Polyline_translate_mut p d = src_Polyline_translate p d.
 Proof. exact src_polyline_translate_mut_is_translate. Qed.
 
+(* round 5: the by-value halves themselves: the top-left corner / the translate offset moves by `by`, the rest is kept
+   (Rectangle: C16_src_trait_translate_is_model; Line: C07_src; RoundedRectangle: C05_src_rrect_translate_is_model;
+   Polyline: Polyline.polyline_translate on the (translate, vertices) record) *)
+Theorem C07_src_Circle_translate_is_model : forall c d, src_Circle_translate c d = Circ (padd (c_tl c) d) (c_d c).
+Proof. exact src_circle_translate_eq. Qed.
+Theorem C07_src_Ellipse_translate_is_model : forall e d, src_Ellipse_translate e d = Ell (padd (e_tl e) d) (e_sz e).
+Proof. exact src_ellipse_translate_eq. Qed.
+Theorem C07_src_Polyline_translate_is_model : forall p d,
+  src_Polyline_translate p d = Build_Polyline (padd (Polyline_translate p) d) (Polyline_vertices p).
+Proof. exact src_polyline_translate_eq. Qed.
+
 Example C07_src_translate_mut_nonvacuous :
   src_Line_translate_mut (L (P 1 2) (P 3 4)) (P 10 20) = L (P 11 22) (P 13 24) /\
   src_Circle_translate_mut (Circ (P 1 2) 5) (P (-1) 1) = Circ (P 0 3) 5.
